@@ -179,14 +179,10 @@ def data_indices(F, res):
         ups = {e['callee']: e for e in w.trace if e['kind'] == 'loop_update'}
         a = sd[0]['args']
         idt, cnt = a[1], a[2]
-        okk = len(sd) == 1 and idt[0] == 'call' and idt[1].endswith('Data::id') and idt[2][0] == ('elem', sd[0]['loops'][-1]) \
-            and cnt[0] == 'call' and cnt[1] == 'loopvar' and cnt[2][1] == lit(0, 'u32')
+        okk = len(sd) == 1 and idt[0] == 'call' and idt[1].endswith('Data::id') and len(idt[2]) == 1
         if okk:
-            name = cnt[2][2][1]
-            up = ups.get(name)
-            okk = up is not None and up['args'][1] == ('bin', 'Add', cnt, lit(1, 'u32'))
-        if okk:
-            okk = show(sd[0]['loops'][-1]) == 'iter(self)'
+            pc = fl.position_counter(cnt, idt[2][0], ups)
+            okk = pc is not None and show(pc[0]) == 'iter(self)' and pc[1][0] == 'lit' and pc[1][1] == 0
         good = okk if good is None else (good and okk)
     # ModuleData::emit walks the same iterator
     ws2 = Evaluator(F, nop).run_fn('<module::data::ModuleData as emit::Emit>::emit', [sym('self'), sym('cx')])
@@ -239,21 +235,19 @@ def locals_emit(F, res):
     why = 'no analysable world'
     for w in ws:
         ins = [e for e in w.trace if e['kind'] == 'call' and e['callee'].endswith('HashMap::insert') and len(e['args']) == 3
-               and e['args'][2][0] == 'call' and e['args'][2][1] == 'loopvar']
-        cname = ins[0]['args'][2][2][2][1] if ins else None
+               and e['loops']]
+        c0 = ins[0]['args'][2] if ins else None
+        cname = c0[2][2][1] if (c0 is not None and c0[0] == 'call' and c0[1] == 'loopvar') else None
         ups = [e for e in w.trace if e['kind'] == 'loop_update' and e['callee'] == cname]
         if len(ins) == 1 and ins[0]['loops']:
             # one numbering loop over `args` chained with the remaining locals: parameters first, then the rest, one
-            # counter from 0 incremented once per local
+            # counter from 0 incremented once per local (a counter local, zip with 0.., or enumerate)
             e = ins[0]
-            src = show(e['loops'][-1])
-            c1 = e['args'][2]
-            chained = re.match(r'^chain\((iter\()?self\.args\)?, ', src) is not None
-            zero = c1[0] == 'call' and c1[1] == 'loopvar' and c1[2][1][0] == 'lit' and c1[2][1][1] == 0
-            own = e['args'][1] == ('elem', e['loops'][-1])
-            inc = len(ups) == 1 and ups[0]['args'][1] == ('bin', 'Add', ups[0]['args'][0], ups[0]['args'][1][3]) \
-                and ups[0]['args'][1][3][0] == 'lit' and ups[0]['args'][1][3][1] == 1 and ups[0]['args'][0] == c1
-            if chained and zero and own and inc:
+            updict = {u['callee']: u for u in w.trace if u['kind'] == 'loop_update'}
+            pc = fl.position_counter(e['args'][2], e['args'][1], updict)
+            src = show(pc[0]) if pc else show(e['loops'][-1])
+            chained = re.match(r'^(cloned\(|copied\()?chain\((iter\()?self\.args\)?, ', src) is not None
+            if pc is not None and chained and pc[1][0] == 'lit' and pc[1][1] == 0:
                 good = True
                 continue
             why = 'a single numbering loop must walk self.args first, then the other locals, counting from 0 by 1: %s' % src[:80]
